@@ -69,6 +69,7 @@ def run(chk):
     rule_locations_total(chk)
     rule_layout_total(chk)
     rule_include_depth(chk)
+    rule_defined_eval(chk)
     rule_admitted_kinds(chk)
     rule_elab_total(chk)
     rule_scope_walk(chk)
@@ -763,6 +764,73 @@ def rule_include_depth(chk):
         if seen and isinstance(seen[0], int) and seen[0] != 1:
             bad = "the included file is processed with nesting depth %s recorded, must be 1" % seen[0]
     chk.ob("C08.include/bounded", bad is None, bad or "refused when too deep; depth raised while the included file is processed", where(dm.pc))
+
+
+def rule_defined_eval(chk, prefix="C08.macro/defined"):
+    """`defined` inside an #if line, read through apply_macros (apply_defined = true) on token lists whose tokens carry
+    source locations: `defined X` / `defined(X)` become 1 or 0 by whether X is a macro; and a `defined` that comes out of
+    a macro whose body sits in a file registered LATER than the #if line (a header) must not abort - the replacement
+    token's span is computed by subtracting locations, which only makes sense inside one line."""
+    import interp as I
+    f = chk.facts
+    am = f.fn("apply_macros", "rssl_preprocess")
+    if not am:
+        return False
+    pos = [0]
+
+    def tok(k, v=None, base=0):
+        pos[0] += 2
+        a = base + pos[0]
+        return I.Enum("PreprocessToken", None, {"0": I.Enum("Token", k, {} if v is None else {"0": v}),
+                                                "1": I.Enum("PreprocessTokenData", None, {"start_location": I.Enum("SourceLocation", None, {"0": a}), "end_location": I.Enum("SourceLocation", None, {"0": a + 1})})})
+    idt = lambda s_, base=0: tok("Id", I.Enum("Identifier", None, {"0": s_}), base)
+    macro = lambda name, body, fn_=False, np_=0: I.Enum("Macro", None, {"name": name, "is_function": fn_, "num_params": np_, "tokens": body, "location": I.Enum("SourceLocation", None, {"0": 1000})})
+    HDR = 5000      # tokens of a macro body defined in a header: the header is registered after the file with the #if line
+    X = macro("X", [tok("LiteralInt", 1, HDR)])
+    wrap = macro("IS_ENABLED", [tok("LeftParen", None, HDR), idt("defined", HDR), tok("Whitespace", None, HDR), tok("MacroArg", 0, HDR), tok("RightParen", None, HDR)], True, 1)
+    wrap2 = macro("HAS", [idt("defined", HDR), tok("LeftParen", None, HDR), tok("MacroArg", 0, HDR), tok("RightParen", None, HDR)], True, 1)
+    obj = macro("HAS_X", [idt("defined", HDR), tok("LeftParen", None, HDR), idt("X", HDR), tok("RightParen", None, HDR)])
+    cases = [
+        ("defined X (macro)", [idt("defined"), tok("Whitespace"), idt("X")], [X], [("LiteralInt", 1)]),
+        ("defined(X) (macro)", [idt("defined"), tok("LeftParen"), idt("X"), tok("RightParen")], [X], [("LiteralInt", 1)]),
+        ("defined(Q) (not a macro)", [idt("defined"), tok("LeftParen"), idt("Q"), tok("RightParen")], [X], [("LiteralInt", 0)]),
+        ("defined Q || defined X", [idt("defined"), tok("Whitespace"), idt("Q"), tok("VerticalBarVerticalBar"), idt("defined"), tok("Whitespace"), idt("X")], [X],
+         [("LiteralInt", 0), ("VerticalBarVerticalBar", None), ("LiteralInt", 1)]),
+        ("IS_ENABLED(FOO) with #define IS_ENABLED(f) (defined f) from a header", [idt("IS_ENABLED"), tok("LeftParen"), idt("FOO"), tok("RightParen")], [X, wrap], None),
+        ("HAS(X) with #define HAS(f) defined(f) from a header", [idt("HAS"), tok("LeftParen"), idt("X"), tok("RightParen")], [X, wrap2], None),
+        ("HAS_X with #define HAS_X defined(X) from a header", [idt("HAS_X")], [X, obj], None),
+    ]
+    bad_val = bad_abort = None
+    n = 0
+    for name, toks, macros, want in cases:
+        ip = I.Interp(f, max_depth=24)
+        ip.max_loop = 512
+        try:
+            r = ip.apply(am, [list(toks), list(macros), True, I.Opaque("source manager")])
+        except I.Unknown as e:
+            if "panicking" in str(e) or "overflow" in str(e) or "abort" in str(e):
+                bad_abort = bad_abort or "`#if %s` aborts in the preprocessor (%s): compile() panics instead of reporting the condition" % (name, str(e)[:80])
+                n += 1
+                continue
+            chk.note("%s: apply_macros with apply_defined is not readable on `%s` (%s)" % (prefix, name, str(e)[:80]))
+            return False
+        n += 1
+        if want is None:
+            continue
+        got = None
+        if isinstance(r, I.Enum) and r.variant == "Ok":
+            got = []
+            for t in r.fields["0"]:
+                k = t.fields["0"]
+                if k.variant == "Whitespace":
+                    continue
+                p0 = k.fields.get("0")
+                got.append((k.variant, p0 if isinstance(p0, int) else None))
+        if got != want and not bad_val:
+            bad_val = "`#if %s` is rewritten to %s, must be %s" % (name, got, want)
+    chk.ob(prefix + "/value", bad_val is None, bad_val or "defined X / defined(X) become 1 or 0 by whether X is a macro", where(am))
+    chk.ob(prefix + "/from-macro-no-abort", bad_abort is None, bad_abort or "a `defined` produced by a macro from another file does not abort", where(am))
+    return True
 
 
 def rule_strslice(chk, reach):
